@@ -1,5 +1,5 @@
 // auto-generated: "lalrpop 0.23.1"
-// sha3: 8952591e0e3f1319ba00df5ef601a847cbb18dd90898a01ffcf96e3815afce9e
+// sha3: 2811fb6148e25c6b26cdc24592d32ea182f2ebe38b668a2315123a84dc83d373
 use crate::rt::*;
 #[allow(unused_extern_crates)]
 extern crate lalrpop_util as __lalrpop_util;
@@ -67,6 +67,8 @@ mod __parse__N0 {
         _40R((i64, i64, i64)),
         N0((i64, Tree, i64)),
         N1((i64, Tree, i64)),
+        N2((i64, Tree, i64)),
+        N3((i64, Tree, i64)),
         ____N0((i64, Tree, i64)),
     }
 
@@ -80,14 +82,10 @@ mod __parse__N0 {
     {
         let mut __result: (Option<(i64, Tok, i64)>, __Nonterminal<>);
         match __lookahead {
-            Some((__loc1, __tok @ Tok('d', _, _, _), __loc2)) => {
-                let __sym0 = (__loc1, (__tok), __loc2);
-                __result = __state2(__tokens, __sym0, core::marker::PhantomData::<()>)?;
-            }
             None => {
                 let __start: i64 = __lookahead.as_ref().map(|o| o.0.clone()).unwrap_or_default();
                 let __end = __start.clone();
-                let __nt = super::__action14::<>(&__start, &__end);
+                let __nt = super::__action19::<>(&__start, &__end);
                 let __nt = __Nonterminal::N0((
                     __start,
                     __nt,
@@ -98,7 +96,6 @@ mod __parse__N0 {
             _ => {
                 #[allow(clippy::needless_raw_string_hashes)]
                 let __expected = alloc::vec![
-                    r###""t3""###.to_string(),
                 ];
                 return Err(
                     match __lookahead {
@@ -180,153 +177,6 @@ mod __parse__N0 {
             }
         }
     }
-
-    fn __state2<
-        __TOKENS: Iterator<Item=Result<(i64, Tok, i64),__lalrpop_util::ParseError<i64, Tok, u64>>>,
-    >(
-        __tokens: &mut __TOKENS,
-        __sym0: (i64, Tok, i64),
-        _: core::marker::PhantomData<()>,
-    ) -> Result<(Option<(i64, Tok, i64)>, __Nonterminal<>), __lalrpop_util::ParseError<i64, Tok, u64>>
-    {
-        let mut __result: (Option<(i64, Tok, i64)>, __Nonterminal<>);
-        let __lookahead = match __tokens.next() {
-            Some(Ok(v)) => Some(v),
-            Some(Err(e)) => return Err(e),
-            None => None,
-        };
-        match __lookahead {
-            Some((__loc1, __tok @ Tok('e', _, _, _), __loc2)) => {
-                let __sym1 = (__loc1, (__tok), __loc2);
-                __result = __state3(__tokens, __sym0, __sym1, core::marker::PhantomData::<()>)?;
-                return Ok(__result);
-            }
-            _ => {
-                #[allow(clippy::needless_raw_string_hashes)]
-                let __expected = alloc::vec![
-                    r###""t4""###.to_string(),
-                ];
-                return Err(
-                    match __lookahead {
-                        Some(__token) => {
-                            __lalrpop_util::ParseError::UnrecognizedToken {
-                                token: __token,
-                                expected: __expected,
-                            }
-                        }
-                        None => {
-                            let __location = __sym0.2.clone();
-                            __lalrpop_util::ParseError::UnrecognizedEof {
-                                location: __location,
-                                expected: __expected,
-                            }
-                        }
-                    }
-                )
-            }
-        }
-    }
-
-    fn __state3<
-        __TOKENS: Iterator<Item=Result<(i64, Tok, i64),__lalrpop_util::ParseError<i64, Tok, u64>>>,
-    >(
-        __tokens: &mut __TOKENS,
-        __sym0: (i64, Tok, i64),
-        __sym1: (i64, Tok, i64),
-        _: core::marker::PhantomData<()>,
-    ) -> Result<(Option<(i64, Tok, i64)>, __Nonterminal<>), __lalrpop_util::ParseError<i64, Tok, u64>>
-    {
-        let mut __result: (Option<(i64, Tok, i64)>, __Nonterminal<>);
-        let __lookahead = match __tokens.next() {
-            Some(Ok(v)) => Some(v),
-            Some(Err(e)) => return Err(e),
-            None => None,
-        };
-        match __lookahead {
-            Some((__loc1, __tok @ Tok('c', _, _, _), __loc2)) => {
-                let __sym2 = (__loc1, (__tok), __loc2);
-                __result = __state4(__tokens, __sym0, __sym1, __sym2, core::marker::PhantomData::<()>)?;
-                return Ok(__result);
-            }
-            _ => {
-                #[allow(clippy::needless_raw_string_hashes)]
-                let __expected = alloc::vec![
-                    r###""t2""###.to_string(),
-                ];
-                return Err(
-                    match __lookahead {
-                        Some(__token) => {
-                            __lalrpop_util::ParseError::UnrecognizedToken {
-                                token: __token,
-                                expected: __expected,
-                            }
-                        }
-                        None => {
-                            let __location = __sym1.2.clone();
-                            __lalrpop_util::ParseError::UnrecognizedEof {
-                                location: __location,
-                                expected: __expected,
-                            }
-                        }
-                    }
-                )
-            }
-        }
-    }
-
-    fn __state4<
-        __TOKENS: Iterator<Item=Result<(i64, Tok, i64),__lalrpop_util::ParseError<i64, Tok, u64>>>,
-    >(
-        __tokens: &mut __TOKENS,
-        __sym0: (i64, Tok, i64),
-        __sym1: (i64, Tok, i64),
-        __sym2: (i64, Tok, i64),
-        _: core::marker::PhantomData<()>,
-    ) -> Result<(Option<(i64, Tok, i64)>, __Nonterminal<>), __lalrpop_util::ParseError<i64, Tok, u64>>
-    {
-        let mut __result: (Option<(i64, Tok, i64)>, __Nonterminal<>);
-        let __lookahead = match __tokens.next() {
-            Some(Ok(v)) => Some(v),
-            Some(Err(e)) => return Err(e),
-            None => None,
-        };
-        match __lookahead {
-            None => {
-                let __start = __sym0.0.clone();
-                let __end = __sym2.2.clone();
-                let __nt = super::__action13::<>(__sym0, __sym1, __sym2);
-                let __nt = __Nonterminal::N0((
-                    __start,
-                    __nt,
-                    __end,
-                ));
-                __result = (__lookahead, __nt);
-                return Ok(__result);
-            }
-            _ => {
-                #[allow(clippy::needless_raw_string_hashes)]
-                let __expected = alloc::vec![
-                ];
-                return Err(
-                    match __lookahead {
-                        Some(__token) => {
-                            __lalrpop_util::ParseError::UnrecognizedToken {
-                                token: __token,
-                                expected: __expected,
-                            }
-                        }
-                        None => {
-                            let __location = __sym2.2.clone();
-                            __lalrpop_util::ParseError::UnrecognizedEof {
-                                location: __location,
-                                expected: __expected,
-                            }
-                        }
-                    }
-                )
-            }
-        }
-    }
 }
 #[allow(unused_imports)]
 pub use self::__parse__N0::N0Parser;
@@ -344,15 +194,10 @@ fn __action0<
 fn __action1<
 >(
     (_, l, _): (i64, i64, i64),
-    (_, pR0, _): (i64, i64, i64),
-    (_, c0, _): (i64, Tok, i64),
-    (_, pR1, _): (i64, i64, i64),
-    (_, c1, _): (i64, Tok, i64),
-    (_, c2, _): (i64, Tok, i64),
     (_, r, _): (i64, i64, i64),
 ) -> Tree
 {
-    { probe("N0#0", 0, 'R', pR0); probe("N0#0", 1, 'R', pR1); node("N0#0", l, r, vec![Tree::from(c0), Tree::from(c1), Tree::from(c2)]) }
+    node("N0#0", l, r, vec![])
 }
 
 #[allow(clippy::too_many_arguments, clippy::needless_lifetimes, clippy::just_underscores_and_digits, clippy::extra_unused_type_parameters)]
@@ -362,45 +207,78 @@ fn __action2<
     (_, r, _): (i64, i64, i64),
 ) -> Tree
 {
-    node("N0#1", l, r, vec![])
+    node("N1#0", l, r, vec![])
 }
 
 #[allow(clippy::too_many_arguments, clippy::needless_lifetimes, clippy::just_underscores_and_digits, clippy::extra_unused_type_parameters)]
 fn __action3<
 >(
     (_, l, _): (i64, i64, i64),
+    (_, c0, _): (i64, Tok, i64),
+    (_, c1, _): (i64, Tree, i64),
     (_, r, _): (i64, i64, i64),
 ) -> Tree
 {
-    node("N1#0", l, r, vec![])
+    node("N1#1", l, r, vec![Tree::from(c0), Tree::from(c1)])
 }
 
 #[allow(clippy::too_many_arguments, clippy::needless_lifetimes, clippy::just_underscores_and_digits, clippy::extra_unused_type_parameters)]
 fn __action4<
 >(
     (_, l, _): (i64, i64, i64),
-    (_, pL0, _): (i64, i64, i64),
     (_, c0, _): (i64, Tree, i64),
+    (_, c1, _): (i64, Tok, i64),
     (_, r, _): (i64, i64, i64),
 ) -> Tree
 {
-    { probe("N1#1", 0, 'L', pL0); node("N1#1", l, r, vec![Tree::from(c0)]) }
+    node("N2#0", l, r, vec![Tree::from(c0), Tree::from(c1)])
 }
 
 #[allow(clippy::too_many_arguments, clippy::needless_lifetimes, clippy::just_underscores_and_digits, clippy::extra_unused_type_parameters)]
 fn __action5<
 >(
     (_, l, _): (i64, i64, i64),
-    (_, c0, _): (i64, Tok, i64),
-    (_, pR1, _): (i64, i64, i64),
+    (_, c0, _): (i64, Tree, i64),
     (_, r, _): (i64, i64, i64),
 ) -> Tree
 {
-    { probe("N1#2", 1, 'R', pR1); node("N1#2", l, r, vec![Tree::from(c0)]) }
+    node("N2#1", l, r, vec![Tree::from(c0)])
+}
+
+#[allow(clippy::too_many_arguments, clippy::needless_lifetimes, clippy::just_underscores_and_digits, clippy::extra_unused_type_parameters)]
+fn __action6<
+>(
+    (_, l, _): (i64, i64, i64),
+    (_, r, _): (i64, i64, i64),
+) -> Tree
+{
+    node("N3#0", l, r, vec![])
+}
+
+#[allow(clippy::too_many_arguments, clippy::needless_lifetimes, clippy::just_underscores_and_digits, clippy::extra_unused_type_parameters)]
+fn __action7<
+>(
+    (_, l, _): (i64, i64, i64),
+    (_, c0, _): (i64, Tree, i64),
+    (_, r, _): (i64, i64, i64),
+) -> Tree
+{
+    node("N3#1", l, r, vec![Tree::from(c0)])
+}
+
+#[allow(clippy::too_many_arguments, clippy::needless_lifetimes, clippy::just_underscores_and_digits, clippy::extra_unused_type_parameters)]
+fn __action8<
+>(
+    (_, l, _): (i64, i64, i64),
+    (_, c0, _): (i64, Tok, i64),
+    (_, r, _): (i64, i64, i64),
+) -> Tree
+{
+    node("N3#2", l, r, vec![Tree::from(c0)])
 }
 
 #[allow(clippy::needless_lifetimes, clippy::clone_on_copy)]
-fn __action6<
+fn __action9<
 >(
     __lookbehind: &i64,
     __lookahead: &i64,
@@ -410,7 +288,7 @@ fn __action6<
 }
 
 #[allow(clippy::needless_lifetimes, clippy::clone_on_copy)]
-fn __action7<
+fn __action10<
 >(
     __lookbehind: &i64,
     __lookahead: &i64,
@@ -421,19 +299,14 @@ fn __action7<
 
 #[allow(clippy::too_many_arguments, clippy::needless_lifetimes,
     clippy::just_underscores_and_digits, clippy::clone_on_copy, clippy::unit_arg)]
-fn __action8<
+fn __action11<
 >(
     __0: (i64, i64, i64),
-    __1: (i64, Tok, i64),
-    __2: (i64, i64, i64),
-    __3: (i64, Tok, i64),
-    __4: (i64, Tok, i64),
-    __5: (i64, i64, i64),
 ) -> Tree
 {
     let __start0 = __0.0.clone();
     let __end0 = __0.0.clone();
-    let __temp0 = __action7(
+    let __temp0 = __action10(
         &__start0,
         &__end0,
     );
@@ -441,24 +314,19 @@ fn __action8<
     __action1(
         __temp0,
         __0,
-        __1,
-        __2,
-        __3,
-        __4,
-        __5,
     )
 }
 
 #[allow(clippy::too_many_arguments, clippy::needless_lifetimes,
     clippy::just_underscores_and_digits, clippy::clone_on_copy, clippy::unit_arg)]
-fn __action9<
+fn __action12<
 >(
     __0: (i64, i64, i64),
 ) -> Tree
 {
     let __start0 = __0.0.clone();
     let __end0 = __0.0.clone();
-    let __temp0 = __action7(
+    let __temp0 = __action10(
         &__start0,
         &__end0,
     );
@@ -471,14 +339,16 @@ fn __action9<
 
 #[allow(clippy::too_many_arguments, clippy::needless_lifetimes,
     clippy::just_underscores_and_digits, clippy::clone_on_copy, clippy::unit_arg)]
-fn __action10<
+fn __action13<
 >(
-    __0: (i64, i64, i64),
+    __0: (i64, Tok, i64),
+    __1: (i64, Tree, i64),
+    __2: (i64, i64, i64),
 ) -> Tree
 {
     let __start0 = __0.0.clone();
     let __end0 = __0.0.clone();
-    let __temp0 = __action7(
+    let __temp0 = __action10(
         &__start0,
         &__end0,
     );
@@ -486,12 +356,38 @@ fn __action10<
     __action3(
         __temp0,
         __0,
+        __1,
+        __2,
     )
 }
 
 #[allow(clippy::too_many_arguments, clippy::needless_lifetimes,
     clippy::just_underscores_and_digits, clippy::clone_on_copy, clippy::unit_arg)]
-fn __action11<
+fn __action14<
+>(
+    __0: (i64, Tree, i64),
+    __1: (i64, Tok, i64),
+    __2: (i64, i64, i64),
+) -> Tree
+{
+    let __start0 = __0.0.clone();
+    let __end0 = __0.0.clone();
+    let __temp0 = __action10(
+        &__start0,
+        &__end0,
+    );
+    let __temp0 = (__start0, __temp0, __end0);
+    __action4(
+        __temp0,
+        __0,
+        __1,
+        __2,
+    )
+}
+
+#[allow(clippy::too_many_arguments, clippy::needless_lifetimes,
+    clippy::just_underscores_and_digits, clippy::clone_on_copy, clippy::unit_arg)]
+fn __action15<
 >(
     __0: (i64, Tree, i64),
     __1: (i64, i64, i64),
@@ -499,38 +395,7 @@ fn __action11<
 {
     let __start0 = __0.0.clone();
     let __end0 = __0.0.clone();
-    let __start1 = __0.0.clone();
-    let __end1 = __0.0.clone();
-    let __temp0 = __action7(
-        &__start0,
-        &__end0,
-    );
-    let __temp0 = (__start0, __temp0, __end0);
-    let __temp1 = __action7(
-        &__start1,
-        &__end1,
-    );
-    let __temp1 = (__start1, __temp1, __end1);
-    __action4(
-        __temp0,
-        __temp1,
-        __0,
-        __1,
-    )
-}
-
-#[allow(clippy::too_many_arguments, clippy::needless_lifetimes,
-    clippy::just_underscores_and_digits, clippy::clone_on_copy, clippy::unit_arg)]
-fn __action12<
->(
-    __0: (i64, Tok, i64),
-    __1: (i64, i64, i64),
-    __2: (i64, i64, i64),
-) -> Tree
-{
-    let __start0 = __0.0.clone();
-    let __end0 = __0.0.clone();
-    let __temp0 = __action7(
+    let __temp0 = __action10(
         &__start0,
         &__end0,
     );
@@ -539,87 +404,6 @@ fn __action12<
         __temp0,
         __0,
         __1,
-        __2,
-    )
-}
-
-#[allow(clippy::too_many_arguments, clippy::needless_lifetimes,
-    clippy::just_underscores_and_digits, clippy::clone_on_copy, clippy::unit_arg)]
-fn __action13<
->(
-    __0: (i64, Tok, i64),
-    __1: (i64, Tok, i64),
-    __2: (i64, Tok, i64),
-) -> Tree
-{
-    let __start0 = __0.0.clone();
-    let __end0 = __0.0.clone();
-    let __start1 = __0.2.clone();
-    let __end1 = __1.0.clone();
-    let __start2 = __2.2.clone();
-    let __end2 = __2.2.clone();
-    let __temp0 = __action6(
-        &__start0,
-        &__end0,
-    );
-    let __temp0 = (__start0, __temp0, __end0);
-    let __temp1 = __action6(
-        &__start1,
-        &__end1,
-    );
-    let __temp1 = (__start1, __temp1, __end1);
-    let __temp2 = __action6(
-        &__start2,
-        &__end2,
-    );
-    let __temp2 = (__start2, __temp2, __end2);
-    __action8(
-        __temp0,
-        __0,
-        __temp1,
-        __1,
-        __2,
-        __temp2,
-    )
-}
-
-#[allow(clippy::too_many_arguments, clippy::needless_lifetimes,
-    clippy::just_underscores_and_digits, clippy::clone_on_copy, clippy::unit_arg)]
-fn __action14<
->(
-    __lookbehind: &i64,
-    __lookahead: &i64,
-) -> Tree
-{
-    let __start0 = __lookbehind.clone();
-    let __end0 = __lookahead.clone();
-    let __temp0 = __action6(
-        &__start0,
-        &__end0,
-    );
-    let __temp0 = (__start0, __temp0, __end0);
-    __action9(
-        __temp0,
-    )
-}
-
-#[allow(clippy::too_many_arguments, clippy::needless_lifetimes,
-    clippy::just_underscores_and_digits, clippy::clone_on_copy, clippy::unit_arg)]
-fn __action15<
->(
-    __lookbehind: &i64,
-    __lookahead: &i64,
-) -> Tree
-{
-    let __start0 = __lookbehind.clone();
-    let __end0 = __lookahead.clone();
-    let __temp0 = __action6(
-        &__start0,
-        &__end0,
-    );
-    let __temp0 = (__start0, __temp0, __end0);
-    __action10(
-        __temp0,
     )
 }
 
@@ -627,19 +411,19 @@ fn __action15<
     clippy::just_underscores_and_digits, clippy::clone_on_copy, clippy::unit_arg)]
 fn __action16<
 >(
-    __0: (i64, Tree, i64),
+    __0: (i64, i64, i64),
 ) -> Tree
 {
-    let __start0 = __0.2.clone();
-    let __end0 = __0.2.clone();
-    let __temp0 = __action6(
+    let __start0 = __0.0.clone();
+    let __end0 = __0.0.clone();
+    let __temp0 = __action10(
         &__start0,
         &__end0,
     );
     let __temp0 = (__start0, __temp0, __end0);
-    __action11(
-        __0,
+    __action6(
         __temp0,
+        __0,
     )
 }
 
@@ -647,27 +431,207 @@ fn __action16<
     clippy::just_underscores_and_digits, clippy::clone_on_copy, clippy::unit_arg)]
 fn __action17<
 >(
+    __0: (i64, Tree, i64),
+    __1: (i64, i64, i64),
+) -> Tree
+{
+    let __start0 = __0.0.clone();
+    let __end0 = __0.0.clone();
+    let __temp0 = __action10(
+        &__start0,
+        &__end0,
+    );
+    let __temp0 = (__start0, __temp0, __end0);
+    __action7(
+        __temp0,
+        __0,
+        __1,
+    )
+}
+
+#[allow(clippy::too_many_arguments, clippy::needless_lifetimes,
+    clippy::just_underscores_and_digits, clippy::clone_on_copy, clippy::unit_arg)]
+fn __action18<
+>(
+    __0: (i64, Tok, i64),
+    __1: (i64, i64, i64),
+) -> Tree
+{
+    let __start0 = __0.0.clone();
+    let __end0 = __0.0.clone();
+    let __temp0 = __action10(
+        &__start0,
+        &__end0,
+    );
+    let __temp0 = (__start0, __temp0, __end0);
+    __action8(
+        __temp0,
+        __0,
+        __1,
+    )
+}
+
+#[allow(clippy::too_many_arguments, clippy::needless_lifetimes,
+    clippy::just_underscores_and_digits, clippy::clone_on_copy, clippy::unit_arg)]
+fn __action19<
+>(
+    __lookbehind: &i64,
+    __lookahead: &i64,
+) -> Tree
+{
+    let __start0 = __lookbehind.clone();
+    let __end0 = __lookahead.clone();
+    let __temp0 = __action9(
+        &__start0,
+        &__end0,
+    );
+    let __temp0 = (__start0, __temp0, __end0);
+    __action11(
+        __temp0,
+    )
+}
+
+#[allow(clippy::too_many_arguments, clippy::needless_lifetimes,
+    clippy::just_underscores_and_digits, clippy::clone_on_copy, clippy::unit_arg)]
+fn __action20<
+>(
+    __lookbehind: &i64,
+    __lookahead: &i64,
+) -> Tree
+{
+    let __start0 = __lookbehind.clone();
+    let __end0 = __lookahead.clone();
+    let __temp0 = __action9(
+        &__start0,
+        &__end0,
+    );
+    let __temp0 = (__start0, __temp0, __end0);
+    __action12(
+        __temp0,
+    )
+}
+
+#[allow(clippy::too_many_arguments, clippy::needless_lifetimes,
+    clippy::just_underscores_and_digits, clippy::clone_on_copy, clippy::unit_arg)]
+fn __action21<
+>(
+    __0: (i64, Tok, i64),
+    __1: (i64, Tree, i64),
+) -> Tree
+{
+    let __start0 = __1.2.clone();
+    let __end0 = __1.2.clone();
+    let __temp0 = __action9(
+        &__start0,
+        &__end0,
+    );
+    let __temp0 = (__start0, __temp0, __end0);
+    __action13(
+        __0,
+        __1,
+        __temp0,
+    )
+}
+
+#[allow(clippy::too_many_arguments, clippy::needless_lifetimes,
+    clippy::just_underscores_and_digits, clippy::clone_on_copy, clippy::unit_arg)]
+fn __action22<
+>(
+    __0: (i64, Tree, i64),
+    __1: (i64, Tok, i64),
+) -> Tree
+{
+    let __start0 = __1.2.clone();
+    let __end0 = __1.2.clone();
+    let __temp0 = __action9(
+        &__start0,
+        &__end0,
+    );
+    let __temp0 = (__start0, __temp0, __end0);
+    __action14(
+        __0,
+        __1,
+        __temp0,
+    )
+}
+
+#[allow(clippy::too_many_arguments, clippy::needless_lifetimes,
+    clippy::just_underscores_and_digits, clippy::clone_on_copy, clippy::unit_arg)]
+fn __action23<
+>(
+    __0: (i64, Tree, i64),
+) -> Tree
+{
+    let __start0 = __0.2.clone();
+    let __end0 = __0.2.clone();
+    let __temp0 = __action9(
+        &__start0,
+        &__end0,
+    );
+    let __temp0 = (__start0, __temp0, __end0);
+    __action15(
+        __0,
+        __temp0,
+    )
+}
+
+#[allow(clippy::too_many_arguments, clippy::needless_lifetimes,
+    clippy::just_underscores_and_digits, clippy::clone_on_copy, clippy::unit_arg)]
+fn __action24<
+>(
+    __lookbehind: &i64,
+    __lookahead: &i64,
+) -> Tree
+{
+    let __start0 = __lookbehind.clone();
+    let __end0 = __lookahead.clone();
+    let __temp0 = __action9(
+        &__start0,
+        &__end0,
+    );
+    let __temp0 = (__start0, __temp0, __end0);
+    __action16(
+        __temp0,
+    )
+}
+
+#[allow(clippy::too_many_arguments, clippy::needless_lifetimes,
+    clippy::just_underscores_and_digits, clippy::clone_on_copy, clippy::unit_arg)]
+fn __action25<
+>(
+    __0: (i64, Tree, i64),
+) -> Tree
+{
+    let __start0 = __0.2.clone();
+    let __end0 = __0.2.clone();
+    let __temp0 = __action9(
+        &__start0,
+        &__end0,
+    );
+    let __temp0 = (__start0, __temp0, __end0);
+    __action17(
+        __0,
+        __temp0,
+    )
+}
+
+#[allow(clippy::too_many_arguments, clippy::needless_lifetimes,
+    clippy::just_underscores_and_digits, clippy::clone_on_copy, clippy::unit_arg)]
+fn __action26<
+>(
     __0: (i64, Tok, i64),
 ) -> Tree
 {
     let __start0 = __0.2.clone();
     let __end0 = __0.2.clone();
-    let __start1 = __0.2.clone();
-    let __end1 = __0.2.clone();
-    let __temp0 = __action6(
+    let __temp0 = __action9(
         &__start0,
         &__end0,
     );
     let __temp0 = (__start0, __temp0, __end0);
-    let __temp1 = __action6(
-        &__start1,
-        &__end1,
-    );
-    let __temp1 = (__start1, __temp1, __end1);
-    __action12(
+    __action18(
         __0,
         __temp0,
-        __temp1,
     )
 }
 
